@@ -623,3 +623,4 @@ PROPS["C18"]["rule"] += " The operations include /api/loc/util/js (scripts with 
 PROPS["C06"]["rule"] += (" After an injected storage failure (reported as an error) the remaining operations run; what the failed operation "
                          "names is unspecified until an acknowledged operation defines it again, everything else - in particular every "
                          "operation acknowledged afterwards - must be there, live and rebuilt from storage.")
+PROPS["C02"]["rule"] += " In a third of the cases the facts are written in Go-typed form (nested core.Map, []string, []map[string]interface{}, [][]string), as Go callers and the Javascript bridge deliver them."
